@@ -8,7 +8,7 @@ COQ_MODULE = "Proc.Model"; RUN_FN = "run"
 THEOREMS = ["C14_bracket_shape", "C14_start_once_in_order", "C14_incoming_until_consumed",
             "C14_handler_iff_not_consumed", "C14_end_once_reverse_after_handler",
             "C14_brackets_do_not_interleave", "C14_emitted_in_program_order",
-            "C14_same_instant_emits_keep_order", "C14_run_terminates"]
+            "C14_sends_keep_order", "C14_loop_states_reachable", "C14_run_terminates"]
 QUICK_N = 2500; THOROUGH_N = 150000
 RULE = ("scripts = (send budget, global default stack, two modules each with Module::stack mode keep/append/replace/prepend, own elements, "
         "handler script with 0..3 start-up stages and optionally a sleeping task or a shutdown/restart trigger, message injections onto a "
